@@ -142,18 +142,33 @@ where
     }
 
     pub(crate) async fn defer_dump_old_blob_indexes(&self) {
-        self.send_msg(Msg::new(OperationType::DeferredDumpBlobIndexes, None))
+        self.try_send_msg(Msg::new(OperationType::DeferredDumpBlobIndexes, None))
             .await
     }
 
     pub(crate) async fn try_update_active_blob(&self) {
-        self.send_msg(Msg::new(OperationType::TryUpdateActiveBlob, None))
+        self.try_send_msg(Msg::new(OperationType::TryUpdateActiveBlob, None))
             .await
     }
 
     pub(crate) async fn try_fsync_data(&self) {
-        self.send_msg(Msg::new(OperationType::TryFsyncData, None))
+        self.try_send_msg(Msg::new(OperationType::TryFsyncData, None))
             .await
+    }
+
+    /// Sends notification without waiting for free space in the channel.
+    /// Notifications are sent by `write`/`delete` while the storage lock is held for read. Waiting for
+    /// the channel there can deadlock with the worker: it needs the same lock for write to switch
+    /// the active blob and only then reads the next message. Dropped notification is not lost:
+    /// it is repeated by the following operations while its reason holds.
+    async fn try_send_msg(&self, msg: Msg) {
+        if let ObserverState::Running(sender, _) = &self.state {
+            if let Err(e) = sender.try_send(msg) {
+                debug!("Notification was not sent to worker: {:?}", e);
+            }
+        } else {
+            error!("storage observer task was not launched");
+        }
     }
 
     async fn send_msg(&self, msg: Msg) {
